@@ -186,6 +186,21 @@ def step (s : St) (ws : List String) : St × List String :=
     | none => (s, ["bad-op"])
   | ["t-dagfail"] => ({ s with g := restoreSaved s.g s.saved, saved := [] }, [])
   | ["t-show"] => let s' := compact s; (s', ["trace " ++ obs s'])
+  | "call" :: known :: items =>
+    -- call <known 0|1> <items: a:b (channel keyword) | v (accepted value) | x (refused value)>
+    let parsed : Option (List CallItem) := items.mapM fun w =>
+      if w = "v" then some .valOk else if w = "x" then some .valBad
+      else match w.splitOn ":" with
+        | [a, b] => match a.toNat?, b.toNat? with
+          | some a, some b => some (.chan a b)
+          | _, _ => none
+        | _ => none
+    match parsed, (if known = "1" then some true else if known = "0" then some false else none) with
+    | some items, some known =>
+      let (g, r) := callOp s.g known items
+      let s' := { s with g }
+      (s', [(if known then showRes r else "refused") ++ " - " ++ obs s'])
+    | _, _ => (s, ["bad-op"])
   | "replace" :: pre :: oc :: nc :: ps =>
     -- replace <pre 0|1> <old chans a,b,..> <new chans a,b,..> <pairs my:other ...>
     let parsed : Option (List (Option Nat × Nat)) := ps.mapM fun w =>
